@@ -363,6 +363,12 @@ def r5(model, rep):
             if yes and no and (t.endswith(">0") or t.endswith("==1") or t.endswith("!=0") or t.startswith("0<") or t.startswith("1==") or t.startswith("0!=")):
                 ok = True
     if not ok:
+        # is there any if on the flag map that appends 'Yes' / '' at all?  if not, the roll-up is written in a form this rule
+        # does not read (e.g. a comprehension over the sources)
+        cand = [s for s in ast.walk(ploop) if isinstance(s, ast.If) and flagmap in {n.id for n in ast.walk(s.test) if isinstance(n, ast.Name)}
+                and any(appends_const(a, wname, "Yes") or appends_const(a, wname, "") for a in s.body + s.orelse)]
+        if not cand:
+            raise AnalysisError("solve: the Subsystem rows' warning cell is not written by an if / else on the per-domain flag: roll-up not readable")
         rep.violation("R5", "system.System.solve", where, "a Subsystem row does not say 'Yes' exactly when its domain's flag is set", "subsystem yes")
     rep.instance("R5", "system.System.solve Subsystem row says Yes iff flag", where, ok)
     ok = False
